@@ -191,6 +191,26 @@ theorem tagName_plain (k : String) (h : ',' ∉ k.toList) : Engine.tagName k = k
       simp [List.takeWhile_cons, hc, ih hcs]
   rw [this _ h]; simp
 
+/-- the name part of a tag never contains a comma, and taking it twice changes nothing -/
+theorem tagName_no_comma (k : String) : ',' ∉ (Engine.tagName k).toList := by
+  unfold Engine.tagName
+  simp only [String.toList_ofList]
+  have : ∀ l : List Char, ',' ∉ l.takeWhile (fun c => c != ',') := by
+    intro l
+    induction l with
+    | nil => simp
+    | cons c cs ih =>
+      rw [List.takeWhile_cons]
+      by_cases hc : c = ','
+      · simp [hc]
+      · have : (c != ',') = true := by simpa using hc
+        simp only [this, ↓reduceIte, List.mem_cons, not_or]
+        exact ⟨fun e => hc e.symm, ih⟩
+  exact this _
+
+theorem tagName_idem (k : String) : Engine.tagName (Engine.tagName k) = Engine.tagName k :=
+  tagName_plain _ (tagName_no_comma k)
+
 /-- a source tag that names nothing (`json:",omitempty"`, `json:""`) does not name the key -/
 theorem key_source_tag_without_name (t k key : String) (fm : FieldMeta) (h : lookupD fm.tags t = some k)
     (hn : Engine.tagName k = "") :
